@@ -32,15 +32,16 @@ TRUSTED_BASE = [
 ]
 ASSUMPTIONS = [
     "coordinates are exact rationals (fractions.Fraction on the Python side); IEEE rounding is not modelled",
-    "boxes are well formed (x0<=x1, y0<=y1); every add/extend inserts fresh objects; remove targets a live object "
-    "or an object that is not in the index (then: KeyError, index unchanged - plane_remove_absent)",
+    "boxes are well formed (x0<=x1, y0<=y1) and do not change while the object is in the index; add/extend insert "
+    "new objects, objects that are already there (no-op) or objects removed before (added again, last); remove "
+    "targets a live object or an object that is not in the index (then: KeyError, index unchanged)",
     "get_bound is the tight hull for non-empty point lists inside [-INF, INF]^2 (outside: the +-INF limit shows, "
     "modelled and proved as get_bound_attained_or_limit)",
 ]
 STATEMENT_STATUS = {}
 
 CLASSIFIERS = {
-    # re-adding an object that was added before makes __iter__ yield it twice
+    # (historic; fixed in round 6) re-adding an object that was added before made __iter__ yield it twice
     "c20_readd_duplicate_in_iter": lambda f: f.tags.get("readd", False) and f.tags.get("op") == "iter",
 }
 
@@ -342,7 +343,9 @@ def exec_plane(pb, gs, ops, in_domain: bool):
                 if op[1].id in ever:
                     readd = True
                 ever.add(op[1].id)
-                order.append(op[1])
+                # set-like: an object that is there stays where it is; one that was removed is added again
+                if not any(o is op[1] for o in order):
+                    order.append(op[1])
                 outs.append("ok")
             elif op[0] == "extend":
                 plane.extend(list(op[1]))
@@ -350,7 +353,8 @@ def exec_plane(pb, gs, ops, in_domain: bool):
                     if b.id in ever:
                         readd = True
                     ever.add(b.id)
-                    order.append(b)
+                    if not any(o is b for o in order):
+                        order.append(b)
                 outs.append("ok")
             elif op[0] == "contains":
                 got = op[1] in plane
@@ -574,12 +578,32 @@ def gen_plane_seq_full(rng):
     for _ in range(rng.randint(4, 36)):
         r = rng.random()
         if r < 0.25 or not live:
-            b = fresh()
-            live.append(b)
+            k = rng.random()
+            if k < 0.12 and dead:               # an object that was removed is added again: it becomes the last
+                b = rng.choice(dead)
+                dead.remove(b)
+                live.append(b)
+            elif k < 0.22 and live:             # an object that is there is added again: no-op
+                b = rng.choice(live)
+            elif k < 0.32 and live:             # a NEW object with exactly the box of another one
+                o = rng.choice(live)
+                nid[0] += 1
+                b = Box(nid[0], o.x0, o.y0, o.x1, o.y1)
+                live.append(b)
+            else:
+                b = fresh()
+                live.append(b)
             ops.append(("add", b))
         elif r < 0.33:
             bs = [fresh() for _ in range(rng.randint(0, 4))]
+            if dead and rng.random() < 0.2:
+                b = rng.choice(dead)
+                dead.remove(b)
+                bs.insert(rng.randint(0, len(bs)), b)
             live.extend(bs)
+            if rng.random() < 0.15:             # a live object inside the list: skipped
+                bs = list(bs)
+                bs.insert(rng.randint(0, len(bs)), rng.choice(live))
             ops.append(("extend", bs))
         elif r < 0.48:
             k = rng.random()
@@ -753,7 +777,10 @@ def run_plane(ctx: C.Ctx) -> None:
     for i in range(ctx.n(150, 6000)):
         wild = (i % 4 == 3)
         pb, gs, ops = gen_plane_seq(rng, rng.randint(3, 40), wild)
-        check_plane_case(ctx, pb, gs, ops, not wild, lines, impl, inputs)
+        # re-adds, duplicate adds and removals of absent objects are in the domain since the repair of Plane.add
+        if wild:
+            ctx.branch("plane:duplicates-and-readds")
+        check_plane_case(ctx, pb, gs, ops, True, lines, impl, inputs)
     if ctx.driver is not None:
         outs = ctx.driver.ask(lines)
         bad_seq = False
